@@ -317,6 +317,32 @@ def lopsided_cube_case(rng, n=None, frequent_explicit=True):
     return {"dense": dense, "commons": commons, "shape": None, "extents": extents}
 
 
+def sparse_regime_case(rng, n=None):
+    """Two or three dimensions of 6-9 categories in which 94-99% of the rows hold one answer and the rest are scattered
+    singly over the rows, the scattered rows of different dimensions largely coinciding (so that short row lists are
+    intersected with each other): the regime in which a constructor from dense data leaves its small-data path."""
+    if n is None:
+        n = int(pick(rng, [150, 400, 1500, 6000]))
+    ndims = int(rng.integers(2, 4))
+    k = max(4, int(n * float(pick(rng, [0.02, 0.04, 0.055]))))
+    hot = rng.choice(n, size=k, replace=False)
+    dense, commons, extents = [], [], []
+    for d in range(ndims):
+        ext = int(rng.integers(6, 10))
+        a = numpy.zeros((n,) if d or rng.random() < 0.7 else (n, 2), dtype=numpy.int64)
+        rows = hot[rng.random(k) < 0.8]
+        vals = rng.integers(1, ext, size=len(rows))
+        vals[: ext - 1] = numpy.arange(1, ext)[: len(vals[: ext - 1])]      # every category occurs
+        if a.ndim == 1:
+            a[rows] = vals
+        else:
+            a[rows, rng.integers(0, 2, size=len(rows))] = vals
+        dense.append(a)
+        commons.append(0 if rng.random() < 0.8 else int(rng.integers(1, ext)))
+        extents.append(ext)
+    return {"dense": dense, "commons": commons, "shape": None, "extents": extents}
+
+
 def inferred_shape(case):
     """Shape the index cube is expected to infer: max(values present u {common}) + 1."""
     out = []
